@@ -43,7 +43,7 @@ CORPUS = [
     ("F-61 reported cost after max iterations (unbounded LM)", dict(algo="Levenberg-Marquardt", bounded=False, n=2, f="rosen", x0=[-3.0, -3.0], maxit=3), None),
     ("F-61 (bounded Levenberg)", dict(algo="Levenberg", bounded=True, n=2, f="rosen", x0=[-3.0, -3.0], maxit=3, lo=[-5.0, -5.0], up=[5.0, 5.0]), None),
     ("F-62 bounds of the wrong length", dict(algo="L-BFGS", bounded=True, n=3, f="quadd", h=[1.0, 1.0, 1.0], c=[0.0, 0.0, 0.0], x0=[1.0, 1.0, 1.0], lo=[-1.0, -1.0, -1.0], up=[2.0, 2.0]), None),
-    ("F-19 rounding at a face (open)", dict(algo="Conjugate-Gradient", bounded=True, n=3, f="quadd", h=[1.0, 3.0, 2.0], c=[10.3, 7.1, 0.25], lo=[0.1] * 3, up=[1.7, 2.3, 0.9], x0=[0.3, 0.2, 0.7], tol=1e-8), "rounding-overshoot-at-face<=4ulp"),
+    ("F-19 rounding at a face (open)", dict(algo="Conjugate-Gradient", bounded=True, n=3, f="quadd", h=[1.0, 3.0, 2.0], c=[10.3, 7.1, 0.25], lo=[0.1] * 3, up=[1.7, 2.3, 0.9], x0=[0.3, 0.2, 0.7], tol=1e-8), "rounding-overshoot-at-face<=13ulp"),
     ("F-64 L-BFGS on a linear cost (open)", dict(algo="L-BFGS", bounded=True, n=1, f="lin", g=[-1.0], x0=[3.9], lo=[2.7], up=[mc.RMAX], maxit=5, tol=1e-9), "lbfgs-zero-curvature-nan-state"),
     ("F-65 Levenberg holds a variable whose gradient points inward (open)", dict(algo="Levenberg", bounded=True, n=2, f="quadm", H=[2.0, -1.0, -1.0, 2.0], c=[-1.0, -3.0], lo=[0.0, 0.0], up=[10.0, 10.0], x0=[0.0, 0.0], tol=1e-9), "lm-converged-with-inward-gradient-at-bound"),
 ]
@@ -77,7 +77,7 @@ def run(ctx, replay):
             if sig not in SKIP:
                 ctx.violation(msg, {"kind": "oracle", "case": c, "signature": sig, "case_line": mc.case_line(c)})
         return
-    n_rand = 1500 if ctx.tier == "quick" else 12000
+    n_rand = 1500 if ctx.tier == "quick" else 30000
     cases = [(label, dict(c, maxcb=c.get("maxcb", 60000), log=1), exp) for label, c, exp in CORPUS]
     cases += [("random", dict(mc.gen_c18(ctx.rng), log=1), None) for _ in range(n_rand)]
     res = mc.run_cases(exe, [c for _, c, _ in cases])
